@@ -85,7 +85,111 @@ M_INDEX.harnesses.append(H("u3_insert_replace", "U3"))
 M_INDEX.harnesses.append(H("u3_remove", "U3"))
 M_INDEX.harnesses.append(H("canary_u3", "U3", kind="canary"))
 
-KMODULES = {"index": M_INDEX}
+
+# ---------------------------------------------------------------- table.rs
+def _b(x):
+    return "true" if x else "false"
+
+
+def _fmt_parts(es, r):
+    rem, n = r, 1
+    while rem > es - 2:
+        rem -= es - 10
+        n += 1
+    return n, rem
+
+
+def _table_shapes():
+    """(name, call, unit, kind, tiers, shape text)"""
+    out = []
+    Q, T = ("quick", "thorough"), ("thorough",)
+    ES = 48
+    # --- writer, insert mode, multipart table of 48-byte entries
+    def ins(es, mp, rc, k, L, free, tiers):
+        nm = "u6_w_ins_e%d_%s_%s%s_L%d_f%d" % (es, "mp" if mp else "fx", "r" if rc else "n", "k" if k else "n", L, free)
+        n, last = _fmt_parts(es, L + (4 if rc else 0) + (26 if k else 0))
+        out.append((nm, "w_insert(%d, %s, %s, %s, %d, %d, %d, %d)" % (es, _b(mp), _b(rc), _b(k), L, free, n, last), "U6", "bounded", tiers, n + 2,
+                    "overwrite_chain insert: entry_size %d %s, rc=%s key=%s, value length %d, %d free slot(s)" % (es, "multipart" if mp else "fixed", rc, k, L, free)))
+    quick_ins = {(True, True, 16, 0), (True, True, 17, 1), (True, True, 55, 2), (False, False, 46, 0), (False, False, 47, 0)}
+    for (rc, k, hi) in [(True, True, 92), (False, False, 122), (False, True, 96), (True, False, 118)]:
+        hdr = (4 if rc else 0) + (26 if k else 0)
+        bounds = sorted({0, 1, 46 - hdr, 47 - hdr, 84 - hdr, 85 - hdr, hi})
+        lens = range(0, hi + 1) if (rc, k) in [(True, True), (False, False)] else bounds
+        for L in lens:
+            if L < 0:
+                continue
+            for free in (0, 1, 2):
+                is_bound = L in bounds
+                if free > 0 and not is_bound:
+                    continue
+                tiers = Q if (rc, k, L, free) in quick_ins else T
+                ins(ES, True, rc, k, L, free, tiers)
+    # fixed-size tables: every length up to capacity
+    for (es, rc, k) in [(32, False, True), (33, True, False), (64, True, True), (64, False, False)]:
+        cap = es - 2 - (4 if rc else 0) - (26 if k else 0)
+        for L in range(0, cap + 1):
+            ins(es, False, rc, k, L, 0, Q if (es == 64 and rc and k and L == cap) else T)
+    # --- writer, replace / claimed mode
+    def rep(rc, k, old, L, claimed, tiers):
+        nm = "u6_w_rep_%s%s_o%d_L%d%s" % ("r" if rc else "n", "k" if k else "n", old, L, "_cl" if claimed else "")
+        n, last = _fmt_parts(ES, L + (4 if rc else 0) + (26 if k else 0))
+        out.append((nm, "w_replace(%d, %s, %s, %d, %d, %s, %d, %d)" % (ES, _b(rc), _b(k), old, L, _b(claimed), n, last), "U6", "bounded", tiers, max(n, old) + 2,
+                    "overwrite_chain %s: 48-byte multipart, rc=%s key=%s, old chain %d part(s), new value length %d" % ("claimed" if claimed else "replace", rc, k, old, L)))
+    quick_rep = {(True, True, 3, 16), (True, True, 1, 55), (True, True, 2, 17)}
+    for (rc, k) in [(True, True), (False, False)]:
+        hdr = (4 if rc else 0) + (26 if k else 0)
+        for old in (1, 2, 3):
+            for L in sorted({0, 46 - hdr, 47 - hdr, 84 - hdr, 85 - hdr, 85 - hdr + 7}):
+                rep(rc, k, old, L, False, Q if (rc, k, old, L) in quick_rep else T)
+    for L in (16, 17, 55):
+        rep(True, True, 1, L, True, Q if L == 17 else T)
+    # --- reader
+    def rd(es, mp, rc, k, n, last, tiers):
+        for mode in (0, 1, 2):
+            if (mode == 1 and not rc) or (mode == 2 and not k):
+                continue
+            nm = "u6_r_q_e%d_%s_%s%s_n%d_l%d_m%d" % (es, "mp" if mp else "fx", "r" if rc else "n", "k" if k else "n", n, last, mode)
+            out.append((nm, "r_query(%d, %s, %s, %s, %d, %d, %d)" % (es, _b(mp), _b(rc), _b(k), n, last, mode), "U6", "bounded",
+                        tiers if (mode == 0 or (n == 2 and tiers == Q)) else T, n + 1,
+                        "query/for_parts: entry_size %d %s, rc=%s key=%s, %d part(s), last part %d bytes, %s" % (
+                            es, "multipart" if mp else "fixed", rc, k, n, last, ["live entry", "counter zero", "key mismatch"][mode])))
+    quick_rd = set()  # multi-part reader shapes are thorough-only (cost)
+    for (rc, k) in [(True, True), (False, False), (False, True), (True, False)]:
+        hdr = (4 if rc else 0) + (26 if k else 0)
+        for n in (1, 2, 3):
+            lasts = sorted({hdr if n == 1 else 0, 9 if n > 1 else hdr + 1, 46})
+            for last in lasts:
+                if n == 1:
+                    continue  # a multipart table only holds chains (a head must carry the MULTIHEAD marker)
+                rd(ES, True, rc, k, n, last, Q if (rc, k, n, last) in quick_rd else T)
+    rd(64, False, True, True, 1, 62, Q)
+    rd(64, False, True, True, 1, 30, T)
+    rd(32, False, False, True, 1, 30, T)
+    for (mp, rc, n, last) in [(True, True, 2, 20), (False, False, 1, 40), (False, True, 1, 40)]:
+        nm = "u6_r_sk_%s_%s_n%d" % ("mp" if mp else "fx", "r" if rc else "n", n)
+        out.append((nm, "r_size_and_key(48, %s, %s, %d, %d)" % (_b(mp), _b(rc), n, last), "U6", "bounded", Q if mp and rc else T, n + 1,
+                    "size / partial_key_at / has_key_at on a %d-part chain" % n))
+    out.append(("u6_r_dead_mp", "r_dead(48, true)", "U6", "bounded", T, 3, "tombstone and continuation part are not values"))
+    out.append(("u6_r_dead_fx", "r_dead(48, false)", "U6", "bounded", T, 3, "tombstone is not a value (fixed table)"))
+    return out
+
+
+TABLE_SHAPES = _table_shapes()
+
+
+def _gen_table():
+    return "\n".join("table_harness!(#[kani::unwind(%d)] %s, %s);" % (x[5], x[0], x[1]) for x in TABLE_SHAPES)
+
+
+M_TABLE = KModule("table", "src/table.rs", "verif_table", "table.rs", _gen_table,
+                  cbmc_args=("--unwindset", "memcmp.0:28"))
+for n in ["u5_size_codec", "u5_markers", "u5_int_codecs", "u5_header", "u5_value_size", "u5_table_id"]:
+    M_TABLE.harnesses.append(H(n, "U5"))
+for (nm, call, unit, kind, tiers, _unw, shape) in TABLE_SHAPES:
+    M_TABLE.harnesses.append(H(nm, unit, kind=kind, tiers=tiers, shape=shape,
+                               bound="48/32/33/64-byte entries (real multipart size is 4096), <= 3 parts, free list <= 2"))
+
+KMODULES = {"index": M_INDEX, "table": M_TABLE}
 
 
 def kmodule_of_unit(unit):
@@ -109,6 +213,18 @@ PROPS = {
         "explanation": "Per start position p (concrete), Kani proves the search contract over a fully symbolic 512-byte page, key and index size; Verus proves find_entry_base's loop invariant unboundedly on the extracted function text.",
         "does_not_cover": ["non-x86_64 builds use find_entry_base only (same contract)", "hardware PSRLQ is trusted to match the SDM"],
     },
+}
+
+PROPS["C06"] = {
+    "kani_units": ["U5", "U6"],
+    "verus_units": [],
+    "level": "other",
+    "technique": "Kani/CBMC contracts on the real entry-header codec (complete) and on the chain writer/reader against the on-disk format specification (bounded shapes)",
+    "claim": "TBD",
+    "level_note": "TBD",
+    "trusted_base": ["rustc, Kani 0.68, CBMC 6.11, kissat/CaDiCaL"],
+    "explanation": "TBD",
+    "does_not_cover": [],
 }
 
 UNIT_META = {
